@@ -17,11 +17,34 @@ GD = 'giscanner.gdumpparser.GDumpParser.'
 
 contract('xml.etree.ElementTree.Element.findall', params={'self': 'Element', 'path': 'str'}, returns='list[Element]',
          pure_keys=['self', 'path'], trusted=True, note='children with that tag, in document order')
-contract('giscanner.ast.Type.create_from_gtype_name', params={'cls': 'any', 'gtype_name': 'str'}, returns='Type',
-         fresh_result=True, trusted=True,
-         ensures={'names_the_reported_type': "result.gtype_name == gtype_name or result.target_fundamental is not None"},
-         note='GType name -> Type (fundamental table lookup / containers); not under contract')
+FUNDAMENTAL_GTYPES = ('gchar', 'guchar', 'gboolean', 'gint', 'guint', 'glong', 'gulong', 'gint64', 'guint64', 'gfloat', 'gdouble',
+                      'gchararray', 'gpointer', 'GType', 'void')
 
+
+def elem_is(t, fundamental):
+    return isinstance(t, ast.Type) and t.target_fundamental == fundamental
+
+
+contract('giscanner.ast.Type.create_from_gtype_name', params={'cls': 'class:Type', 'gtype_name': 'str'}, returns='Type',
+         props=('C12',), raises={'AssertionError': 'True'},
+         ensures={
+             'names_the_reported_type': "result.gtype_name == gtype_name or result.target_fundamental is not None",
+             'C12.gtype.byte_array_of_guint8': "implies(gtype_name == 'GByteArray', isinstance(result, ast.Array) and "
+                                               "result.array_type == 'GLib.ByteArray' and elem_is(result.element_type, 'guint8'))",
+             'C12.gtype.arrays_of_pointers': "implies(gtype_name in ('GArray', 'GPtrArray'), isinstance(result, ast.Array) and "
+                                             "result.array_type == 'GLib.' + gtype_name[1:] and elem_is(result.element_type, 'gpointer'))",
+             'C12.gtype.hash_table': "implies(gtype_name == 'GHashTable', isinstance(result, ast.Map) and "
+                                     "elem_is(result.key_type, 'gpointer') and elem_is(result.value_type, 'gpointer'))",
+             'C12.gtype.strv_is_array_of_utf8': "implies(gtype_name == 'GStrv', isinstance(result, ast.Array) and "
+                                                "result.array_type == '<c>' and elem_is(result.element_type, 'utf8'))",
+             'C12.gtype.fundamentals': "implies(gtype_name in ('gint', 'guint', 'gboolean', 'gdouble', 'gfloat', 'gint64', 'guint64', 'glong', 'gulong'), "
+                                       "result.target_fundamental == gtype_name)",
+             'C12.gtype.strings': "implies(gtype_name == 'gchararray', result.target_fundamental == 'utf8')",
+             'C12.gtype.other_names_unresolved_by_name': "implies(gtype_name not in ast.type_names and gtype_name not in "
+                                                         "('GHashTable', 'GByteArray', 'GArray', 'GPtrArray', 'GStrv'), "
+                                                         "result.gtype_name == gtype_name and not result.target_fundamental and not result.target_giname)",
+         })
+inline('giscanner.ast.Type.clone')
 
 def bit(word, k):
     return (word // (2 ** k)) % 2 == 1
@@ -31,7 +54,7 @@ PS = "xmlnode.findall('property')"
 contract(GD + '_introspect_properties',
          params={'self': 'GDumpParser', 'node': 'Class|Interface', 'xmlnode': 'Element'},
          ghost={'J': 'int'}, props=('C12',),
-         modifies=['node.properties[]', 'node.properties'], raises={'KeyError': 'True', 'ValueError': 'True'},
+         modifies=['node.properties[]', 'node.properties'], raises={'KeyError': 'True', 'ValueError': 'True', 'AssertionError': 'True'},
          requires=["node.properties is not xmlnode.findall('property')"],
          loops={1: {'invariant': [
              'len(node.properties) == old(len(node.properties)) + I1',
